@@ -316,6 +316,17 @@ func body(s *simrt.Sim, tier string) {
 	nPeers := 2 + tp.Draw(7)
 	nTorrents := 1 + tp.Draw(2)
 	nOrigins := tp.Draw(4)
+	// Large swarms (a quarter of the runs; out-of-band workload variant): more
+	// candidates than any small-slice special case of a sorting routine
+	// handles, a handout limit that lets most of them through, and a prelude in
+	// which every peer announces once.
+	large := s.Tape.Variant%4 == 1
+	if large {
+		nPeers = 10 + tp.Draw(17)
+		w.limit = 8 + tp.Draw(20)
+		nOrigins = 1 + tp.Draw(4)
+		s.Probe("large_swarm")
+	}
 	ttl := []time.Duration{30 * time.Second, 2 * time.Minute, 7 * time.Minute, 90 * time.Minute}[tp.Draw(4)]
 	for i := 0; i < nPeers; i++ {
 		p := mkPeer(fmt.Sprintf("p%d", i), fmt.Sprintf("10.0.0.%d", i+1), 7000+i)
@@ -399,6 +410,12 @@ func body(s *simrt.Sim, tier string) {
 				version = announceclient.V1
 			}
 			w.announce(handler, who, p, t, complete, version)
+		}
+	}
+	if large {
+		t := w.torrents[0]
+		for _, p := range w.peers {
+			w.announce(handler, "prelude", p, t, tp.Draw(5) >= 2, announceclient.V2)
 		}
 	}
 	if !concurrent {
